@@ -216,7 +216,7 @@ def native_replay(job, values, scratch, tag):
     exe = os.path.join(scratch, 'replay_%s_%s' % (job.key(), job.entry))
     if not os.path.exists(exe):
         defs = ['-D%s=%s' % kv if kv[1] is not None else '-D%s' % kv[0] for kv in job.defs.items()]
-        cmd = ['g++', '-std=c++11', '-O1', '-g', '-fsanitize=address,undefined', '-fno-sanitize-recover=undefined', '-fno-access-control', '-DNDEBUG', '-D' + GUARD, '-DVP_NATIVE', '-w',
+        cmd = ['g++', '-std=c++11', '-O1', '-g', '-fsanitize=address,undefined', '-fno-sanitize=nonnull-attribute', '-fno-sanitize-recover=undefined', '-fno-access-control', '-DNDEBUG', '-D' + GUARD, '-DVP_NATIVE', '-w',
                '-I' + os.path.join(REPO, 'modules'), '-I' + os.path.join(REPO, '3rd-party'), '-I' + os.path.join(VERIF, 'harness'),
                '-DVP_ENTRY=' + job.entry] + list(job.flags) + defs + [src_path(job), os.path.join(ENGINE, 'replay_rt.cpp'), os.path.join(ENGINE, 'native_stubs.cpp'), '-o', exe, '-lpthread']
         rc, out, err, dt = sh(cmd, timeout=600)
@@ -317,6 +317,26 @@ def run_check(pid, jobs, tier, meta):
                 n_viol += 1
                 rp = os.path.join(replay_dir, '%s-%s-%d.json' % (pid, re.sub(r'\W+', '_', j.name), idx)); json.dump(rec, open(rp, 'w'), indent=1)
                 out_lines.append('VIOLATION property=%s replay=%s   [job=%s: %s; native replay: %s]' % (pid, rp, j.name, v.get('msg'), verdict))
+        # encoding validation: for a sample of jobs, the nondet values of one path the engine completed WITHOUT violation are replayed
+        # against the native build of the same harness; the run must pass every assumption and assertion there too
+        val = {'attempted': 0, 'agree': 0, 'disagree': []}
+        if not os.environ.get('VP_NO_VALIDATE'):
+            cands = [r for r in results if r['status'] == 'pass' and r.get('sample') is not None and r['job'].replay and 'preempt' not in r['job'].opts]
+            step = max(1, len(cands) // 8)
+            picked = cands[::step][:8]
+            def _val(r):
+                j = r['job']
+                return j.name, native_replay(j, r['sample'], scratch, 'val_' + hashlib.sha1(j.name.encode()).hexdigest()[:8])
+            with ThreadPoolExecutor(min(NCPU, 8)) as ex:
+                for name, (verdict, text) in ex.map(_val, picked):
+                    if verdict == 'unavailable': continue
+                    val['attempted'] += 1
+                    if verdict == 'not-reproduced' and 'REPLAY-OK' in text: val['agree'] += 1
+                    else: val['disagree'].append({'job': name, 'native': verdict, 'output': text[-400:]})
+            for d in val['disagree']:
+                n_mismatch += 1
+                out_lines.append('ERROR engine-mismatch job=%s a path the engine explored without violation does not replay cleanly natively (%s)' % (d['job'], d['native']))
+        meta = dict(meta); meta['_validation'] = val
         wall = time.time() - t0
         write_evidence(pid, tier, seed, results, meta, wall, n_viol, n_known, vio_records)
         for l in out_lines: print(l)
@@ -369,6 +389,8 @@ def write_evidence(pid, tier, seed, results, meta, wall, n_viol, n_known, vio_re
             'functions_encoded_count': len(fnset), 'functions_encoded': sorted(fnset)[:300],
             'jobs': jobs, 'solver_time_s': round(sum(r.get('solver_s', 0) for r in results), 2),
             'known_findings_matched': n_known,
+            'traces_validated_against_impl': meta.get('_validation', {}).get('agree', 0),
+            'native_validation': meta.get('_validation', {}),
             'violation_records': [{k: v for k, v in rec.items() if k != 'native_output'} for rec in vio_records[:20]],
             'exhaustive': False,
         },
